@@ -154,12 +154,24 @@ def body_cli(case, rec):
     want = fmt(conv.mk_assembly("x", norm(case["scaffolds"], with_tags=False), header=case["header"]), "agp")
     if back != want:
         raise Violation(f"AGP -> TPF -> AGP changed more than the tags: {first_diff(want, back)}")
-    # the same conversion with the AGP on standard input and the TPF on standard output
+    # an explicit --format wins over the output file's extension
+    want_tpf = fmt(conv.mk_assembly("x", norm(case["scaffolds"], with_tags=False), header=case["header"]), "tpf")
+    d = remap.scratch_dir("vf-c05-")
+    try:
+        (d / "in.agp").write_text(agp)
+        r3 = remap.run_cli_inprocess([d / "in.agp", "-f", "TPF", "-o", d / "step1.agp"], script="asm_format")
+        if r3.exit_code != 0:
+            raise Violation(f"asm-format -f TPF -o step1.agp failed: {r3.exception!r}")
+        got3 = (d / "step1.agp").read_text()
+    finally:
+        remap.rmtree(d)
+    if got3 != want_tpf:
+        raise Violation(f"asm-format -f TPF -o step1.agp did not write TPF: {first_diff(want_tpf, got3)}")
+    # the same conversion with the AGP on standard input and the TPF on standard output (overlap QC on: its report belongs on STDERR)
     if case.get("stdin"):
-        r = remap.run_cli_subprocess(["-i", "AGP", "-f", "TPF"], script="asm_format", stdin=agp)
+        r = remap.run_cli_subprocess(["-i", "AGP", "-f", "TPF", "--qc-overlaps"], script="asm_format", stdin=agp)
         if r.returncode != 0:
             raise Violation(f"asm-format reading STDIN failed: {r.stderr[-300:]}")
-        want_tpf = fmt(conv.mk_assembly("x", norm(case["scaffolds"], with_tags=False), header=case["header"]), "tpf")
         if r.stdout != want_tpf:
             raise Violation(f"asm-format STDIN -> STDOUT differs from the file conversion: {first_diff(want_tpf, r.stdout)}")
     # several input files in one invocation: the output is the concatenation of the single-file outputs
@@ -284,6 +296,11 @@ def assembly_cases(draw, tpf=False):
                     row.append(tags)
                 rows.append(row)
         scaffolds.append([sname, rows])
+    if draw(st.integers(0, 3)) == 0:
+        frs = [r for _n, rows in scaffolds for r in rows if r[0] == "F"]
+        if frs:
+            dup = list(draw(st.sampled_from(frs)))
+            scaffolds[draw(st.integers(0, len(scaffolds) - 1))][1].append(dup)  # an overlapping pair for --qc-overlaps
     header = draw(st.lists(st.sampled_from(["DESCRIPTION: x", "HiC MAP RESOLUTION: 1.5 bp/texel", "a\tb", "trailing space ", "é"]), max_size=3))
     return {"header": header, "scaffolds": scaffolds}
 
@@ -349,6 +366,10 @@ def run_fuzz(rec, tier, seed_value, shard, nshards, handle):
     from vf.remap import SCRATCH_ROOT
     from vf.runner import VERIF_DIR, repo_dir
 
+    if not any((Path(d) / "atheris").is_dir() for d in (VERIF_DIR / ".deps", "/verif/.deps")):
+        # setup.sh installs it; do it here as well so that the check works from a bare restore
+        subprocess.run([sys.executable, "-m", "pip", "install", "-q", "--no-index", "--find-links", "/opt/veriftools/wheels",
+                        "--target", str(VERIF_DIR / ".deps"), "atheris"], capture_output=True)
     runs = {"quick": 400000, "thorough": 24000000}[tier] // nshards
     work = Path(tempfile.mkdtemp(prefix="vf-fuzz-", dir=SCRATCH_ROOT))
     try:
